@@ -112,6 +112,8 @@ func genCompare(args []string) error {
 	n, tol, tolDiff, gendiff, specdiff := 0, 0, 0, 0, 0
 	seenSym := map[string]bool{}
 	hangs := map[string]int{}
+	pool := map[string]map[string]string{}
+	pairs := map[string]int{}
 	for sc.Scan() {
 		p := strings.SplitN(sc.Text(), "|", 4)
 		if len(p) != 4 {
@@ -144,6 +146,38 @@ func genCompare(args []string) error {
 			}
 		}
 		in := raw.decodeInput(p[1])
+		// two lexers of the same definition alive at once, advanced alternately: each must behave as if alone
+		// (pool: inputs of one definition with pairwise different two-byte prefixes, so that the lexers are in different states)
+		key := in
+		if len(key) > 2 {
+			key = key[:2]
+		}
+		if pool[p[0]] == nil {
+			pool[p[0]] = map[string]string{}
+		}
+		if old, ok := pool[p[0]][key]; (!ok && len(pool[p[0]]) < 64 && len(in) >= 2) || (ok && len(in) > len(old) && pairs[p[0]] < 4000) {
+			for _, other := range pool[p[0]] {
+				if other == old && ok {
+					continue
+				}
+				pairs[p[0]]++
+				for _, d := range []struct {
+					name string
+					def  lexer.Definition
+				}{{"generated", gen}, {"runtime", rt}} {
+					nm := symbolNames(d.def)
+					wa, wb := runLexer(d.def, nm, other, 0, "f.txt"), runLexer(d.def, nm, in, 0, "f.txt")
+					if wa == "HANG" || wb == "HANG" {
+						continue
+					}
+					ga, gb := interleaved(d.def, nm, other, in)
+					if ga != wa || gb != wb {
+						fmt.Fprintf(w, "INTERLEAVE\t%s\t%s\t%s lexers on %q and %q advanced alternately give %q / %q, alone %q / %q\n", p[0], p[1], d.name, other, in, ga, gb, wa, wb)
+					}
+				}
+			}
+			pool[p[0]][key] = in
+		}
 		n++
 		if hangs[p[0]] >= 2 {
 			continue
@@ -228,4 +262,43 @@ func genDeep(args []string) error {
 		return nil
 	}
 	return fmt.Errorf("no case %s", args[1])
+}
+
+// interleaved runs two lexers of ONE definition alternately (a.Next, b.Next, a.Next, ...) and returns the two streams.
+func interleaved(def lexer.Definition, names map[lexer.TokenType]string, a, b string) (ra, rb string) {
+	defer func() {
+		if r := recover(); r != nil {
+			ra, rb = fmt.Sprintf("PANIC %v", r), "PANIC"
+		}
+	}()
+	la, e1 := def.Lex("f.txt", strings.NewReader(a))
+	lb, e2 := def.Lex("f.txt", strings.NewReader(b))
+	if e1 != nil || e2 != nil {
+		return "LEXINITERR", "LEXINITERR"
+	}
+	var sa, sb strings.Builder
+	doneA, doneB := false, false
+	step := func(l lexer.Lexer, sb *strings.Builder, done *bool) {
+		if *done {
+			return
+		}
+		t, err := l.Next()
+		if err != nil {
+			pos, _ := errPos(err)
+			fmt.Fprintf(sb, "ERR@%d:%d:%d", pos.Offset, pos.Line, pos.Column)
+			*done = true
+			return
+		}
+		if t.EOF() {
+			fmt.Fprintf(sb, "EOF@%d:%d:%d", t.Pos.Offset, t.Pos.Line, t.Pos.Column)
+			*done = true
+			return
+		}
+		fmt.Fprintf(sb, "%s@%d:%d:%d+%d ", names[t.Type], t.Pos.Offset, t.Pos.Line, t.Pos.Column, len(t.Value))
+	}
+	for i := 0; i < len(a)+len(b)+4 && !(doneA && doneB); i++ {
+		step(la, &sa, &doneA)
+		step(lb, &sb, &doneB)
+	}
+	return sa.String(), sb.String()
 }
